@@ -340,38 +340,57 @@ Definition digit (n : nat) : string := String (ascii_of_nat (48 + n)) "".
 Definition show_nat (n : nat) : string := sapp (digit (n / 10)) (digit (n mod 10)).
 Definition show_ostr (o : option string) : string := match o with Some x => sapp "S:" x | None => "-" end.
 Definition line (l : list string) : string := join "|" l.
-Definition scen (ops : list eff) : list (nat * nat) :=
-  flat_map (fun k => map (pair k) (match nth_error ops k with
-                                   | Some (Write _ d) => seq 0 (S (String.length d)) | _ => [0] end))
-           (seq 0 (S (length ops))).
+Fixpoint pend_at (ops : list eff) (pd : list string) (opened : bool) (k : nat) : list string :=
+  match ops with
+  | [] => []
+  | e :: r =>
+    match k with
+    | 0 => if opened then match e with Write _ d => pd ++ [d] | _ => pd end else []
+    | S k' => match e with
+              | Write _ d => pend_at r (pd ++ [d]) opened k'
+              | Close _ => pend_at r [] false k'
+              | OpenTrunc _ | OpenAppend _ => pend_at r [] true k'
+              | _ => pend_at r pd opened k'
+              end
+    end
+  end.
+(* every interruption point: step k, and how far the open file's buffered pieces had been flushed *)
+Definition scen (ops : list eff) : list (nat * (nat * nat)) :=
+  flat_map (fun k =>
+    let ps := pend_at ops [] false k in
+    match ps with
+    | [] => [(k, (0, 0))]
+    | _ => flat_map (fun j => map (fun n => (k, (j, n))) (seq 0 (S (String.length (nth j ps ""))))) (seq 0 (length ps))
+           ++ [(k, (length ps, 0))]
+    end) (seq 0 (S (length ops))).
 
 Definition csv_report (O : oracle) (c : cmd) (f0 : fs) (c0 : string) : list string :=
   let b := @nil atom in
   let cd := [Aconfig] in
   let ops := mig_ops O c f0 b in
-  let row kind k n f1 inrun :=
+  let row kind k j n f1 inrun :=
     let f2 := rerun O c f1 b in
-    line [kind; show_nat k; show_nat n; show_fs f1; show_inforce (resolve O f1 cd); show_fs f2;
+    line [kind; show_nat k; show_nat j; show_nat n; show_fs f1; show_inforce (resolve O f1 cd); show_fs f2;
           show_inforce (resolve O f2 cd); inrun;
           show_bool (no_loss f0 f1); show_bool (users O c0 (resolve O f1 cd)); show_bool (users O c0 (resolve O f2 cd));
           show_bool (stranded O c0 (resolve O f1 cd) f1); show_bool (stranded O c0 (resolve O f2 cd) f2);
           show_bool (no_loss f0 f2)] in
   line ["ops"; join ";" (map show_eff ops)] ::
   line ["init"; show_fs f0; show_inforce (resolve O f0 cd)] ::
-  row "full" 0 0 (rerun O c f0 b) "-" ::
-  flat_map (fun kn => let '(k, n) := kn in
-    row "crash" k n (crash ops k n f0) "-" ::
+  row "full" 0 0 0 (rerun O c f0 b) "-" ::
+  flat_map (fun kn => let '(k, (j, n)) := kn in
+    row "crash" k j n (crash ops k j n f0) "-" ::
     (if Nat.ltb k (length ops)
-     then [row "fault" k n (after_fault O c f0 b k n)
-               (match c with Up => show_inforce (up_inrun_after_fault (crash ops k n f0) cd) | Init => "-" end)]
+     then [row "fault" k j n (after_fault O c f0 b k j n)
+               (match c with Up => show_inforce (up_inrun_after_fault (crash ops k j n f0) cd) | Init => "-" end)]
      else [])) (scen ops).
 
 Definition show_lres (r : inforce * option string) : string := sapp (show_inforce (fst r)) (sapp "~" (show_ostr (snd r))).
 Definition layout_report (O : oracle) (f0 : fs) (r0 : string) : list string :=
   let ops := update_ops O f0 in
-  let row kind k n f1 :=
+  let row kind k j n f1 :=
     let f2 := update_rerun O f1 in
-    line [kind; show_nat k; show_nat n; show_fs f1; show_lres (resolve_layout O f1); show_fs f2;
+    line [kind; show_nat k; show_nat j; show_nat n; show_fs f1; show_lres (resolve_layout O f1); show_fs f2;
           show_lres (resolve_layout O f2); "-";
           show_bool (no_loss f0 f1); show_bool (lres_eqb (resolve_layout O f1) (resolve_layout O f0));
           show_bool (lres_eqb (resolve_layout O f2) (resolve_layout O f0));
@@ -380,10 +399,10 @@ Definition layout_report (O : oracle) (f0 : fs) (r0 : string) : list string :=
           show_bool (no_loss f0 f2)] in
   line ["ops"; join ";" (map show_eff ops)] ::
   line ["init"; show_fs f0; show_lres (resolve_layout O f0)] ::
-  row "full" 0 0 (update_rerun O f0) ::
-  flat_map (fun kn => let '(k, n) := kn in
-    row "crash" k n (crash ops k n f0) ::
-    (if Nat.ltb k (length ops) then [row "fault" k n (crash ops k n f0)] else [])) (scen ops).
+  row "full" 0 0 0 (update_rerun O f0) ::
+  flat_map (fun kn => let '(k, (j, n)) := kn in
+    row "crash" k j n (crash ops k j n f0) ::
+    (if Nat.ltb k (length ops) then [row "fault" k j n (crash ops k j n f0)] else [])) (scen ops).
 '''
 
 
@@ -434,7 +453,7 @@ def parse_model(out):
         elif f[0] == 'init':
             cur['init'] = f[1:]
         else:
-            cur['rows'][(f[0], int(f[1]), int(f[2]))] = f[3:]
+            cur['rows'][(f[0], int(f[1]), int(f[2]), int(f[3]))] = f[4:]
     return shapes
 
 
@@ -634,6 +653,46 @@ def resolve_matches(exp, obs, tree, layout=False):
     return obs.get('format') == fmt and obs.get('file') in tree and tree[obs['file']] == exp['text']
 
 
+def writes_in_flight(trace):
+    """for every step index k: the writes [(index, data)] to the file that is open while step k runs (before k)"""
+    out, rel, ws = [], None, []
+    for j, e in enumerate(trace):
+        out.append(list(ws))
+        if e[0] in ('T', 'A'):
+            rel, ws = e[1], []
+        elif e[0] == 'W' and e[1] == rel:
+            ws.append((j, e[2]))
+        elif e[0] == 'C' and e[1] == rel:
+            rel, ws = None, []
+    out.append(list(ws))
+    return out
+
+
+def model_key(sc, trace, start, offs):
+    """The model row (mode, k, j, n) of a real scenario: the shim's `n` counts how much of everything buffered
+    so far had reached the disk; the model says: the first j buffered pieces entirely and n chunks of piece j."""
+    if sc['mode'] == 'trace':
+        return ('full', 0, 0, 0)
+    k, n = sc['k'], sc['n']
+    if k >= len(trace):
+        return (sc['mode'], k - start, 0, 0)
+    e = trace[k]
+    ws = writes_in_flight(trace)[k]
+    if e[0] == 'W':
+        ws = ws + [(k, e[2])]
+    if not ws:
+        return (sc['mode'], k - start, 0, 0)
+    base = 0
+    for idx, (j, d) in enumerate(ws):
+        if n < base + len(d):
+            o = offs.get(d)
+            if o is None or (n - base) not in o:
+                return None
+            return (sc['mode'], k - start, idx, o.index(n - base))
+        base += len(d)
+    return (sc['mode'], k - start, len(ws), 0) if n == base else None
+
+
 def compare(info, res, model):
     """-> list of mismatch dicts (broken correspondence)"""
     tok = info['tok']
@@ -660,18 +719,10 @@ def compare(info, res, model):
         offs[tok.interp(tok.lab[lab])] = tok.offsets(lab)
     seen = set()
     for sc in scs:
-        if sc['mode'] == 'trace':
-            key = ('full', 0, 0)
-        else:
-            e = tr['trace'][sc['k']] if sc['k'] < len(tr['trace']) else None
-            n_tok = 0
-            if e is not None and e[0] == 'W':
-                o = offs.get(e[2])
-                if o is None or sc['n'] not in o:
-                    mism.append({'what': 'cut offset not on a chunk boundary', 'scenario': sc_id(sc)})
-                    continue
-                n_tok = o.index(sc['n'])
-            key = (sc['mode'], sc['k'] - start, n_tok)
+        key = model_key(sc, tr['trace'], start, offs)
+        if key is None:
+            mism.append({'what': 'cut offset not on a chunk boundary', 'scenario': sc_id(sc)})
+            continue
         row = model['rows'].get(key)
         if row is None:
             mism.append({'what': 'model has no such scenario', 'scenario': sc_id(sc), 'key': list(key)})
@@ -698,8 +749,11 @@ def compare(info, res, model):
                 mism.append({'what': 'rules used by the failed run differ', 'scenario': sc_id(sc), 'model': inrun,
                              'real': sc['first']['inrun']})
     if not model['ops']:
-        seen.add(('crash', 0, 0))      # a command that does not migrate has no interruption points
-    missing = [list(k) for k in model['rows'] if k not in seen]
+        seen.add(('crash', 0, 0, 0))      # a command that does not migrate has no interruption points
+    # rows with the same interrupted state are the same case (e.g. "cut c of the write" = "close with the buffer
+    # flushed up to c"); every distinct model state must have been materialised
+    seen_states = {(k[0], model['rows'][k][0]) for k in seen if k in model['rows']}
+    missing = [list(k) for k, row in model['rows'].items() if k not in seen and (k[0], row[0]) not in seen_states]
     if missing:
         mism.append({'what': 'model scenarios never materialised', 'keys': missing[:10], 'n': len(missing)})
     return mism
@@ -719,17 +773,9 @@ def verdict_bits(info, res, model, bad):
     for i, clause, detail, sig in bad:
         badset.setdefault(i, set()).add('lost' if clause == 'lost' else 'rules')
     for i, sc in enumerate(res['scenarios']):
-        if sc['mode'] == 'trace':
-            key = ('full', 0, 0)
-        else:
-            e = tr['trace'][sc['k']] if sc['k'] < len(tr['trace']) else None
-            n_tok = 0
-            if e is not None and e[0] == 'W':
-                o = offs.get(e[2])
-                if o is None or sc['n'] not in o:
-                    continue
-                n_tok = o.index(sc['n'])
-            key = (sc['mode'], sc['k'] - start, n_tok)
+        key = model_key(sc, tr['trace'], start, offs)
+        if key is None:
+            continue
         row = model['rows'].get(key)
         if row is None:
             continue
@@ -777,7 +823,7 @@ def make_job(info, scenarios='auto', keep=False, root=None):
         cuts[tok.interp(tok.lab[lab])] = tok.offsets(lab)
     sh = info['shape']
     return {'id': sh['id'], 'root': root or os.path.join(SCR, sh['id']), 'tree': info['tree'], 'cmd': sh['cmd'],
-            'scenarios': scenarios, 'cli': True, 'cuts': cuts, 'keep': keep,
+            'scenarios': scenarios, 'cli': True, 'cuts': cuts, 'keep': keep, 'all_cuts': info['tok'].tier == 'thorough',
             'weight': 3 if sh['kind'] == 'csv' and sh['cmd'] == 'init' else 2}
 
 
@@ -846,10 +892,12 @@ def main(tier):
         'oracles (Section variable O): csv_to_merchants_content, yaml.safe_load(settings).get("merchants_file"), the substring '
         'tests on settings.yaml, rule counts of texts, and the literal texts written; tables for the generated budgets are '
         'computed with the real libraries every run',
-        'file-system semantics assumed: rename is atomic and replaces an existing file; a completed write()+flush is on disk; '
-        'a torn write leaves a prefix; directories are not fsync-ordered (no reordering of completed steps is modelled)',
-        'crash points are the write effects of the migration functions themselves (not of the rest of `tally init`), cut at '
-        'chunk boundaries of each written text (quick: 3-5 cuts per text; thorough: every 3rd byte of the settings line)',
+        'file-system semantics assumed: rename is atomic and replaces an existing file; written text is buffered and becomes '
+        'durable at close (the shim buffers every write handle and the model flushes at Close), an interruption leaves a '
+        'prefix of the buffered pieces (none, a torn flush, all); completed steps are not reordered by the file system',
+        'interruption points are the write effects of the migration functions themselves (not of the rest of `tally init`): a '
+        'crash and a single OSError at every step incl. each close/flush and every step that runs while a file is still open, '
+        'with the buffer flushed up to chunk boundaries (quick: 3-5 cuts per text; thorough: every 3rd byte of the settings line)',
         'shutil.move is one atomic step (same file system); its copy+delete fallback across devices is outside the model']
     with CoqLock():
         order_vo_times()
